@@ -48,6 +48,16 @@ TARGETS = [
     ("pyplumio/devices/__init__.py", "is_known_device_type"),
     ("pyplumio/stream.py", "FrameReader._read_header"),
     ("pyplumio/stream.py", "FrameReader.read"),
+    # round 8: payload decoders (structures/*.py)
+    ("pyplumio/utils.py", "ensure_dict"),
+    ("pyplumio/structures/ecomax_parameters.py", "EcomaxParametersStructure._ecomax_parameter"),
+    ("pyplumio/structures/ecomax_parameters.py", "EcomaxParametersStructure.decode"),
+    ("pyplumio/structures/mixer_parameters.py", "MixerParametersStructure._mixer_parameter"),
+    ("pyplumio/structures/mixer_parameters.py", "MixerParametersStructure._mixer_parameters"),
+    ("pyplumio/structures/mixer_parameters.py", "MixerParametersStructure.decode"),
+    ("pyplumio/structures/thermostat_parameters.py", "ThermostatParametersStructure._thermostat_parameter"),
+    ("pyplumio/structures/thermostat_parameters.py", "ThermostatParametersStructure._thermostat_parameters"),
+    ("pyplumio/structures/thermostat_parameters.py", "ThermostatParametersStructure.decode"),
 ]
 
 EXCEPTIONS = {
@@ -75,6 +85,13 @@ class StructFmt:
 class EnumMember:
     def __init__(self, cls, name, value):
         self.cls, self.name, self.value = cls, name, value
+
+
+class DataObj:
+    """a module-level instance of a plain data class, folded from its constructor call: the fields whose values fold
+    (`partial`: some field does not, e.g. a float — reading it in translated code is `unsupported`, never guessed)"""
+    def __init__(self, cls, fields, partial):
+        self.cls, self.fields, self.partial = cls, fields, partial
 
 
 # ------------------------------------------------------------------------------------------------ modules
@@ -176,6 +193,9 @@ def lean_value(v):
         return "(V.tuple [" + ", ".join(lean_value(x) for x in v) + "])"
     if isinstance(v, EnumMember):
         return lean_value(v.value)
+    if isinstance(v, DataObj):
+        kvs = [f"({lean_str(k)}, {lean_value(x)})" for k, x in v.fields] + (['("*", V.none)'] if v.partial else [])
+        return f"(mkobj {lean_str(v.cls)} [" + ", ".join(kvs) + "])"
     raise Unsupported(f"constant of type {type(v).__name__}")
 
 
@@ -273,6 +293,10 @@ class Translator:
                 fmt = self.fold(mod, node.args[0], depth + 1)
                 if isinstance(fmt, str):
                     return StructFmt(fmt)
+            if isinstance(f, ast.Name):
+                r = self.repo.resolve(mod, f.id)
+                if r and r[0] == "def" and isinstance(r[2], ast.ClassDef) and self.class_kind(r[2]) == "dataclass":
+                    return self.fold_dataobj(mod, node, r[1], r[2], depth)
             raise Unsupported("constant folding of a call")
         if isinstance(node, ast.Attribute):
             if isinstance(node.value, ast.Name):
@@ -313,6 +337,77 @@ class Translator:
                     raise Unsupported(f"enum {cls.name}: non-integer member {st.targets[0].id}")
                 out.append((st.targets[0].id, v))
         return out
+
+    def class_mro(self, mod, cls, depth=0):
+        """C3 linearisation of a class defined in the repository: [(module, ClassDef)]; bases that are not defined in
+        the repository (ABC, Enum, ...) are left out"""
+        if depth > 12:
+            raise Unsupported("class hierarchy too deep")
+        seqs = []
+        direct = []
+        for b in cls.bases:
+            if not isinstance(b, ast.Name):
+                continue
+            r = self.repo.resolve(mod, b.id)
+            if r and r[0] == "def" and isinstance(r[2], ast.ClassDef):
+                direct.append((r[1], r[2]))
+                seqs.append(self.class_mro(r[1], r[2], depth + 1))
+        seqs.append(list(direct))
+        out = [(mod, cls)]
+        seqs = [list(x) for x in seqs if x]
+        while seqs:
+            for sq in seqs:
+                head = sq[0]
+                if not any(any(head[1] is y[1] for y in other[1:]) for other in seqs):
+                    break
+            else:
+                raise Unsupported(f"inconsistent class hierarchy of {cls.name}")
+            out.append(head)
+            seqs = [[y for y in sq if y[1] is not head[1]] for sq in seqs]
+            seqs = [x for x in seqs if x]
+        return out
+
+    def dataclass_fields(self, mod, cls):
+        """fields of a data class in dataclass order (base classes first, a redefinition keeps its first position):
+        [(name, module of the default, default node | None)]"""
+        fields = {}
+        for m, c in reversed(self.class_mro(mod, cls)):
+            if any(isinstance(s, ast.FunctionDef) and s.name in ("__init__", "__post_init__", "__new__", "__getattr__",
+                                                                    "__getattribute__") for s in c.body):
+                raise Unsupported(f"data class {c.name} with its own __init__ / __post_init__ / __getattr__")
+            for st in c.body:
+                if isinstance(st, ast.AnnAssign) and isinstance(st.target, ast.Name) and st.target.id != "__slots__":
+                    fields[st.target.id] = (m, st.value)
+        return [(k, m, v) for k, (m, v) in fields.items()]
+
+    def fold_dataobj(self, mod, call, cmod, cls, depth):
+        fields = self.dataclass_fields(cmod, cls)
+        names = [k for k, _, _ in fields]
+        if any(isinstance(a, ast.Starred) for a in call.args) or any(k.arg is None for k in call.keywords):
+            raise Unsupported(f"{cls.name}(...): starred arguments")
+        if len(call.args) > len(names):
+            raise Unsupported(f"{cls.name}(...): too many arguments")
+        given = {k: (mod, a) for k, a in zip(names, call.args)}
+        for k in call.keywords:
+            if k.arg not in names or k.arg in given:
+                raise Unsupported(f"{cls.name}(...): keyword argument {k.arg}")
+            given[k.arg] = (mod, k.value)
+        out, partial = [], False
+        for k, m, dflt in fields:
+            if k in given:
+                vm, vn = given[k]
+            elif dflt is not None:
+                vm, vn = m, dflt
+            else:
+                raise Unsupported(f"{cls.name}(...): field {k} not given")
+            try:
+                v = self.fold(vm, vn, depth + 1)
+                lean_value(v)
+            except Unsupported:
+                partial = True
+                continue
+            out.append((k, v))
+        return DataObj(cls.name, out, partial)
 
     def class_fields(self, cls):
         return [st.target.id for st in cls.body if isinstance(st, ast.AnnAssign) and isinstance(st.target, ast.Name)
@@ -368,12 +463,22 @@ class Translator:
         info = dict(rel=rel, qual=qual, lean=lname, busy=True, is_async=isinstance(node, ast.AsyncFunctionDef), cls=cls)
         self.funcs[key] = info
         a = node.args
-        if a.vararg or a.kwarg or a.kwonlyargs or a.posonlyargs:
-            raise Unsupported(f"{rel}:{node.lineno} {qual}: *args / **kwargs / keyword-only parameters")
+        if a.kwarg or a.kwonlyargs or a.posonlyargs:
+            raise Unsupported(f"{rel}:{node.lineno} {qual}: **kwargs / keyword-only parameters")
         params = [p.arg for p in a.args]
         info["has_self"] = bool(cls is not None and params and params[0] == "self")
-        if info["has_self"]:
+        # a method that reads / assigns attributes of `self` (directly or through another method of the class) takes the
+        # instance as a first argument `v_self` and returns (result, instance after the call)
+        info["stateful"] = bool(info["has_self"] and self.uses_self_state(cls, node, set()))
+        # a generator function is translated EAGERLY: it returns the list of the yielded values (its call sites are
+        # restricted to list(...) / dict(...), which consume it completely and at once)
+        info["generator"] = any(isinstance(n, (ast.Yield, ast.YieldFrom)) for n in ast.walk(node))
+        if info["has_self"] and not info["stateful"]:
             params = params[1:]
+        info["npos"] = len(params)
+        info["vararg"] = a.vararg.arg if a.vararg else None
+        if a.vararg:
+            params = params + [a.vararg.arg]
         defaults = {}
         for p, d in zip(reversed(a.args), reversed(a.defaults)):
             defaults[p.arg] = self.fold(mod, d)
@@ -389,19 +494,41 @@ class Translator:
         info["busy"] = False
         mon = "IOM" if info["is_async"] else "PyM"
         sig = "".join(f" (v_{p} : V)" for p in params)
+        if info["stateful"]:
+            mon += " (V × V)"
+        else:
+            mon += " V"
         fuel = " (fuel : Nat)" if info["needs_fuel"] else ""
         dflt = ("; defaults: " + ", ".join(f"{k}={v!r}" for k, v in defaults.items())) if defaults else ""
         deco = [ast.unparse(d) for d in node.decorator_list]
         ign = ("; ignored decorators: " + ", ".join("@" + d for d in deco)) if deco else ""
         head = [f"/-- `{rel}`: `{qual}` (line {node.lineno}){dflt}{ign} -/",
-                f"def {lname}{fuel}{sig} : {mon} V := do"]
+                f"def {lname}{fuel}{sig} : {mon} := do"]
         self.order.append((key, head + indent(body)))
         return info
+
+    def uses_self_state(self, cls, node, seen):
+        """does the method read or assign an attribute of `self` (other than calling the stream reader / a method of
+        the class), directly or through the methods of the class it calls"""
+        if id(node) in seen:
+            return False
+        seen.add(id(node))
+        methods = {s.name: s for s in cls.body if isinstance(s, (ast.FunctionDef, ast.AsyncFunctionDef))}
+        for n in ast.walk(node):
+            if isinstance(n, ast.Attribute) and isinstance(n.value, ast.Name) and n.value.id == "self":
+                if n.attr == "_reader":
+                    continue
+                if n.attr in methods:
+                    if self.uses_self_state(cls, methods[n.attr], seen):
+                        return True
+                    continue
+                return True
+        return False
 
     # -------------------------------------------------------------------------------- output
     def emit(self):
         out = ["-- GENERATED by tools/py2lean.py from the repository's current source text. Do not edit.",
-               "import PlumVerif.Model.PyPrelude",
+               "import PlumVerif.Model.PyPreludeStruct",
                "set_option linter.unusedVariables false",
                "namespace PlumVerif.PyCode",
                "open PlumVerif.Py",
@@ -425,7 +552,15 @@ class Translator:
             info = self.funcs[key]
             n = len(info["params"])
             pat = "[" + ", ".join(f"a{i}" for i in range(n)) + "]"
+            if info.get("vararg"):
+                # the positional arguments after the named ones are the *args tuple
+                pat = " :: ".join([f"a{i}" for i in range(n - 1)] + ["rest"])
             app = info["lean"] + (" fuel" if info["needs_fuel"] else "") + "".join(f" a{i}" for i in range(n))
+            if info.get("vararg"):
+                app = info["lean"] + (" fuel" if info["needs_fuel"] else "") + "".join(f" a{i}" for i in range(n - 1)) + " (V.tuple rest)"
+            if info["stateful"]:
+                # the driver answers the result only (the instance after the call is dropped)
+                app = f"(do let r ← {app}; pure r.1)"
             if not info["is_async"]:
                 app = f"IOM.lift ({app})"
             out.append(f"  | {lean_str(info['qual'])}, {pat} => some ({app})")
@@ -446,6 +581,12 @@ class FnTranslator:
         self.nested = 0          # > 0 inside lambda / comprehension / short-circuit branch
         self.loop = None         # state variable list of the enclosing while loop
         self.loop_targets = set()
+        self.stateful = info.get("stateful", False)
+        self.generator = info.get("generator", False)
+        self.gen_ok = None       # id of the call node that may be a generator call (direct argument of list / dict)
+        self.locals = set(info["params"]) | set(assigned_names(list(node.body)))
+        if self.generator:
+            self.bound.add("_yield")
 
     # ------------------------------------------------------------------ helpers
     def fail(self, node, what):
@@ -513,9 +654,40 @@ class FnTranslator:
     def e_Name(self, n):
         if n.id in self.bound:
             return [], "v_" + n.id
+        if n.id in self.locals:
+            # a local variable of the function that no path to this point has assigned: UnboundLocalError
+            lines = []
+            return lines, self.bind(lines, f"({self.P('unboundLocal')} : PyM V)")
         return self.global_name(n, n.id)
 
+    def assigned(self, stmts):
+        """the threaded variables the statements may assign: locals, the instance (`self`) when an attribute of it is
+        assigned or a method that does so is called, the list of yielded values"""
+        out = assigned_names(stmts)
+        for st in stmts:
+            for n in ast.walk(st):
+                if self.stateful and isinstance(n, ast.Attribute) and isinstance(n.value, ast.Name) and n.value.id == "self":
+                    if isinstance(n.ctx, ast.Store) or self.is_stateful_method(n.attr):
+                        if "self" not in out:
+                            out.append("self")
+                if isinstance(n, ast.Yield) and "_yield" not in out:
+                    out.append("_yield")
+        return out
+
+    def is_stateful_method(self, name):
+        if self.cls is None:
+            return False
+        m = next((s for s in self.cls.body if isinstance(s, (ast.FunctionDef, ast.AsyncFunctionDef)) and s.name == name), None)
+        return m is not None and self.tr.uses_self_state(self.cls, m, set())
+
     def e_Attribute(self, n):
+        root = n
+        while isinstance(root, ast.Attribute):
+            root = root.value
+        if isinstance(root, ast.Name) and (root.id in self.bound or root.id in self.locals):
+            # attribute of a value: instance attribute of `self`, field of a data class instance
+            lines, a = self.expr(n.value)
+            return lines, self.bind(lines, f"{self.P('getattr')} {a} {lean_str(n.attr)}")
         try:
             v = self.tr.fold(self.mod, n)
         except Unsupported as e:
@@ -640,6 +812,24 @@ class FnTranslator:
     def e_Tuple(self, n):
         lines, atoms = self.seq(n.elts)
         return lines, "(V.tuple [" + ", ".join(atoms) + "])"
+
+    def e_Dict(self, n):
+        # a dict display with constant string keys (evaluated left to right)
+        keys, lines, atoms = [], [], []
+        for k, v in zip(n.keys, n.values):
+            if k is None:
+                self.fail(n, "** in a dict display")
+            try:
+                kv = self.tr.fold(self.mod, k)
+            except Unsupported as e:
+                self.fail(n, f"dict display with a key that is not a constant ({e})")
+            if not isinstance(kv, str) or kv in keys:
+                self.fail(n, "dict display with a non-string or repeated key")
+            keys.append(kv)
+            l, a = self.expr(v)
+            lines += l
+            atoms.append(a)
+        return lines, "(V.dict [" + ", ".join(lean_str(k) for k in keys) + "] [" + ", ".join(atoms) + "])"
 
     def e_NamedExpr(self, n):
         if self.nested:
@@ -802,6 +992,12 @@ class FnTranslator:
                     lines += l
                     vals[k.arg] = x
                 return lines, self.bind(lines, f"{self.P('int_to_bytes')} {a} {vals['length']} {vals['byteorder']}")
+            if f.attr == "get_nowait" and len(n.args) == 2 and not n.keywords:
+                # TRUSTED primitive: EventManager.get_nowait(name, default) of the owning device = data.get(name, default)
+                lines, a = self.expr(f.value)
+                l2, atoms = self.seq(n.args)
+                lines += l2
+                return lines, self.bind(lines, f"{self.P('device_get_nowait')} {a} {atoms[0]} {atoms[1]}")
             if f.attr == "get" and len(n.args) == 2 and not n.keywords:
                 lines, a = self.expr(f.value)
                 l2, atoms = self.seq(n.args)
@@ -818,6 +1014,13 @@ class FnTranslator:
             return self.gen_call(n, "anyGen" if name == "any" else "allGen")
         if any(isinstance(a, (ast.GeneratorExp, ast.Starred)) for a in args):
             self.fail(n, f"{name}(...) of a generator expression / starred argument")
+        if name in ("list", "dict") and len(args) == 1:
+            # list(it) / dict(it): consumes the iterable completely, here and now — the one place where a call of a
+            # generator function is accepted (the generator is translated eagerly)
+            if isinstance(args[0], ast.Call):
+                self.gen_ok = id(args[0])
+            lines, a = self.expr(args[0])
+            return lines, self.bind(lines, f"{self.P(name + '_')} {a}")
         lines, atoms = self.seq(args)
         one = {"bool": "bool", "len": "len", "reversed": "reversed", "bytearray": "bytearray", "bytes": "bytearray"}
         if name in one and len(atoms) == 1:
@@ -844,11 +1047,22 @@ class FnTranslator:
         if info["is_async"] and not self.is_async:
             self.fail(n, "coroutine called from a plain function")
         kw = self.kwargs(n)
-        params = info["params"]
-        if len(n.args) > len(params):
+        params = list(info["params"])
+        if info.get("generator") and self.gen_ok != id(n):
+            self.fail(n, f"call of the generator function {info['qual']} other than as the argument of list(...) / dict(...)")
+        if info.get("stateful"):
+            if self.nested:
+                self.fail(n, f"call of {info['qual']} (assigns attributes of self) inside a nested scope")
+            if not self.stateful:
+                self.fail(n, f"call of {info['qual']} (uses attributes of self) from a function without the instance")
+            params = params[1:]
+        if info.get("vararg"):
+            params = params[:-1]
+        if len(n.args) > len(params) and not info.get("vararg"):
             self.fail(n, "too many arguments")
         lines, atoms = self.seq(n.args)
         given = dict(zip(params, atoms))
+        extra = atoms[len(params):]
         for k in n.keywords:
             if k.arg not in params or k.arg in given:
                 self.fail(n, f"keyword argument {k.arg}")
@@ -865,7 +1079,15 @@ class FnTranslator:
                 self.fail(n, f"missing argument {p}")
         if info["needs_fuel"]:
             self.needs_fuel = True
+        if info.get("vararg"):
+            full.append("(V.tuple [" + ", ".join(extra) + "])")
+        if info.get("stateful"):
+            full.insert(0, "v_self")
         app = info["lean"] + (" fuel" if info["needs_fuel"] else "") + "".join(" " + a for a in full)
+        if info.get("stateful"):
+            t = self.fresh()
+            lines.append(f"let ({t}, v_self) ← {app}")
+            return lines, t
         return lines, self.bind(lines, app)
 
     def class_call(self, n, m, cls):
@@ -923,19 +1145,46 @@ class FnTranslator:
         for n in ast.walk(self.node):
             if isinstance(n, (ast.FunctionDef, ast.AsyncFunctionDef)) and n is not self.node:
                 self.fail(n, "nested function")
-            if isinstance(n, (ast.Global, ast.Nonlocal, ast.Yield, ast.YieldFrom, ast.With, ast.AsyncWith, ast.AsyncFor,
+            if isinstance(n, (ast.Global, ast.Nonlocal, ast.YieldFrom, ast.With, ast.AsyncWith, ast.AsyncFor,
                               ast.Delete, ast.Assert, ast.Match)):
                 self.fail(n, type(n).__name__)
             if isinstance(n, ast.Name) and n.id == "self" and self.info["has_self"]:
                 pass
+        if self.generator:
+            ok = {id(st.value) for st in ast.walk(self.node) if isinstance(st, ast.Expr) and isinstance(st.value, ast.Yield)}
+            for n in ast.walk(self.node):
+                if isinstance(n, ast.Yield) and (id(n) not in ok or n.value is None):
+                    self.fail(n, "yield other than the statement `yield <value>`")
+                if isinstance(n, ast.Return) and n.value is not None:
+                    self.fail(n, "return with a value inside a generator")
+            if self.is_async:
+                self.fail(self.node, "asynchronous generator")
         self.check_self()
-        self.ret = lambda atom: [f"pure {atom}"]
+        wrap = (lambda atom: f"({atom}, v_self)") if self.stateful else (lambda atom: atom)
+        self.wrap = wrap
+        self.ret = lambda atom: [f"pure {wrap(atom)}"]
         self.cont = None
         self.brk = None
-        return self.block(list(self.node.body), lambda: ["pure V.none"])
+        if self.generator:
+            # the values yielded so far; falling off the end (or a bare `return`) ends the generator
+            self.retval = lambda: "v__yield"
+            return ["let v__yield := V.list []"] + self.block(list(self.node.body), lambda: self.ret("v__yield"))
+        self.retval = lambda: "V.none"
+        return self.block(list(self.node.body), lambda: self.ret("V.none"))
 
     def check_self(self):
         if not self.info["has_self"]:
+            return
+        if self.stateful:
+            # attributes of the instance are read / assigned through Py.getattr / Py.setattr on `v_self`; the instance
+            # itself must not escape (be passed on, returned, stored)
+            ok = set()
+            for n in ast.walk(self.node):
+                if isinstance(n, ast.Attribute) and isinstance(n.value, ast.Name) and n.value.id == "self":
+                    ok.add(id(n.value))
+            for n in ast.walk(self.node):
+                if isinstance(n, ast.Name) and n.id == "self" and id(n) not in ok:
+                    self.fail(n, "use of `self` other than self.<attribute> / self.<method>()")
             return
         ok = set()
         for n in ast.walk(self.node):
@@ -972,6 +1221,10 @@ class FnTranslator:
                 out.append(comment + "      (ignored: logging)")
                 return False
             out.append(comment)
+            if isinstance(v, ast.Yield):
+                lines, a = self.expr(v.value)
+                out += lines + [f"let v__yield ← {self.P('yield_')} v__yield {a}"]
+                return False
             lines, a = self.expr(v)
             if lines and lines[-1].startswith(f"let {a} ← "):
                 lines[-1] = "let _ ← " + lines[-1][len(f"let {a} ← "):]
@@ -985,7 +1238,7 @@ class FnTranslator:
             return False
         if isinstance(st, ast.Return):
             if st.value is None:
-                out += self.ret("V.none")
+                out += self.ret(self.retval())
             else:
                 lines, a = self.expr(st.value)
                 out += lines + self.ret(a)
@@ -1025,10 +1278,19 @@ class FnTranslator:
                 return
             target, value = st.target, st.value
         else:
-            if not isinstance(st.target, ast.Name):
-                self.fail(st, "augmented assignment to something other than a name")
             if type(st.op) not in BINOPS:
                 self.fail(st, "operator " + type(st.op).__name__)
+            if self.is_self_attr(st.target):
+                # self.x op= e : read the attribute, evaluate e, operate, assign the attribute
+                l1, a = self.expr(ast.Attribute(value=st.target.value, attr=st.target.attr, ctx=ast.Load(), lineno=st.lineno))
+                l2, b = self.expr(st.value)
+                out += l1 + l2
+                t = self.fresh()
+                out.append(f"let {t} ← {self.P(BINOPS[type(st.op)])} {a} {b}")
+                out.append(f"let v_self ← {self.P('setattr')} v_self {lean_str(st.target.attr)} {t}")
+                return
+            if not isinstance(st.target, ast.Name):
+                self.fail(st, "augmented assignment to something other than a name")
             # x op= e  on immutable values (ints, bytes, str): x = x op e
             l1, a = self.expr(ast.Name(id=st.target.id, ctx=ast.Load(), lineno=st.lineno))
             l2, b = self.expr(st.value)
@@ -1041,12 +1303,22 @@ class FnTranslator:
             out.append(f"let v_{target.id} := {a}")
             self.bound.add(target.id)
             return
+        if self.is_self_attr(target):
+            out.append(f"let v_self ← {self.P('setattr')} v_self {lean_str(target.attr)} {a}")
+            return
         if isinstance(target, ast.Tuple) and all(isinstance(e, ast.Name) for e in target.elts) and 2 <= len(target.elts) <= 5:
             names = [e.id for e in target.elts]
             out.append(f"let ({', '.join('v_' + x for x in names)}) ← {self.P('unpack' + str(len(names)))} {a}")
             self.bound |= set(names)
             return
         self.fail(st, "assignment target (subscript / attribute assignment mutates an object)")
+
+    def is_self_attr(self, t):
+        if isinstance(t, ast.Attribute) and isinstance(t.value, ast.Name) and t.value.id == "self" and self.stateful:
+            if self.nested:
+                self.fail(t, "assignment to an attribute of self inside a nested scope")
+            return True
+        return False
 
     def raise_(self, st):
         e = st.exc
@@ -1069,13 +1341,13 @@ class FnTranslator:
         the branches are threaded as a tuple.  branches: list of statement lists."""
         names = []
         for b in branches:
-            for x in assigned_names(b):
+            for x in self.assigned(b):
                 if x not in names:
                     names.append(x)
         for x in names:
             if x not in self.bound:
                 # must be assigned in every branch before the join
-                if not all(x in assigned_names(b) and b for b in branches):
+                if not all(x in self.assigned(b) and b for b in branches):
                     raise Unsupported(f"{self.mod.rel} in {self.info['qual']}: variable {x} is bound on some paths only")
         return names
 
@@ -1086,6 +1358,15 @@ class FnTranslator:
         return lines
 
     def if_(self, st, rest, k, out):
+        t = st.test
+        if isinstance(t, ast.BoolOp) and isinstance(t.op, ast.And) and any(isinstance(x, ast.NamedExpr) for x in ast.walk(t)):
+            # `if A and B: S else: T` with assignment expressions in the operands is
+            # `if A: (if B: S else: T) else: T` — the names B binds are unbound on the path where A is false
+            restt = t.values[1] if len(t.values) == 2 else ast.BoolOp(op=ast.And(), values=t.values[1:])
+            inner = ast.copy_location(ast.If(test=ast.copy_location(restt, t), body=st.body, orelse=st.orelse), st)
+            outer = ast.copy_location(ast.If(test=t.values[0], body=[inner], orelse=st.orelse), st)
+            inner.end_lineno = outer.end_lineno = st.end_lineno
+            return self.if_(outer, rest, k, out)
         lines, c0 = self.expr(st.test)
         out += lines
         c = self.fresh()
@@ -1119,10 +1400,15 @@ class FnTranslator:
                 self.fail(st, f"loop variable {t} used outside the loop")
         lines, it = self.expr(st.iter)
         out += lines
-        names = [x for x in assigned_names(st.body) if x != t]
-        for x in names:
+        names = [x for x in self.assigned(st.body) if x != t]
+        for x in list(names):
             if x not in self.bound:
-                self.fail(st, f"variable {x} first assigned inside a for loop")
+                # a variable first assigned inside the loop and never mentioned outside it is local to one iteration
+                # (a read before its assignment in an iteration is then an unbound name: rejected / UnboundLocalError)
+                if any(isinstance(n, ast.Name) and n.id == x and not (st.lineno <= n.lineno <= st.end_lineno)
+                       for n in ast.walk(self.node)):
+                    self.fail(st, f"variable {x} first assigned inside a for loop and used outside it")
+                names.remove(x)
         saved = set(self.bound)
         self.bound.add(t)
         body = self.block(list(st.body), lambda: [f"pure {self.tuple_pat(names)}"])
@@ -1139,7 +1425,7 @@ class FnTranslator:
             if isinstance(n, (ast.While, ast.For)) and n is not st and has_transfer(n.body if hasattr(n, "body") else []):
                 self.fail(n, "loop with return/continue/break nested in a while loop")
         self.needs_fuel = True
-        names = assigned_names([st])
+        names = self.assigned([st])
         walrus = [n.target.id for n in ast.walk(st.test) if isinstance(n, ast.NamedExpr)]
         init = []
         for x in names:
@@ -1155,7 +1441,7 @@ class FnTranslator:
         saved = (self.ret, self.cont, self.brk, self.loop)
         self.loop = names
         self.bound |= set(names)
-        self.ret = lambda atom: [f"pure (Step.ret {atom})"]
+        self.ret = lambda atom: [f"pure (Step.ret {self.wrap(atom)})"]
         self.cont = lambda: [f"pure (Step.next {pat})"]
         self.brk = lambda: [f"pure (Step.done {pat})"]
         lines, c0 = self.expr(st.test)
@@ -1208,9 +1494,9 @@ class FnTranslator:
             self.bound = saved
             out += [f"{self.P(prim)} (do"] + indent(body, 4) + [f"  ) {cs} (do"] + indent(handler, 4) + ["  )"]
             return True
-        names = assigned_names(st.body) + [x for x in assigned_names(h.body) if x not in assigned_names(st.body)]
+        names = self.assigned(st.body) + [x for x in self.assigned(h.body) if x not in self.assigned(st.body)]
         for x in names:
-            if x not in self.bound and not (x in assigned_names(st.body) and terminates(h.body)):
+            if x not in self.bound and not (x in self.assigned(st.body) and terminates(h.body)):
                 self.fail(st, f"variable {x} is bound on some paths only")
         a = self.branch(st.body, names)
         b = ["-- " + self.mod.lines[h.lineno - 1].strip()] + self.branch(h.body, names)
